@@ -1066,3 +1066,94 @@ theorem getMeasurements_spec {β κ : Type} (same : κ → κ → Bool) (cast32 
 
 
 end HdVerif.Ann
+
+namespace HdVerif.Ann
+open HdVerif HdVerif.Gen
+
+/-! ### refusals are ValueErrors -/
+
+theorem mapE_error_kind {β γ : Type} (f : β → Except ErrKind γ) (k : ErrKind) (l : List β)
+    (hall : ∀ x ∈ l, ∀ e, f x = .error e → e = k) (e : ErrKind) (h : mapE f l = .error e) : e = k := by
+  induction l with
+  | nil => simp [mapE] at h
+  | cons a as ih =>
+    simp only [mapE] at h
+    cases hfa : f a with
+    | error e' =>
+      simp only [hfa] at h
+      cases h
+      exact hall a (by simp) _ hfa
+    | ok b =>
+      simp only [hfa] at h
+      cases hrest : mapE f as with
+      | error e' =>
+        simp only [hrest] at h
+        cases h
+        exact ih (fun x hx => hall x (by simp [hx])) hrest
+      | ok bs => simp [hrest] at h
+
+/-- once the guards have passed, writing the attributes cannot fail -/
+theorem finish_ok {α : Type} [DecidableEq α] (gt : String) (gd : GData α) (rows : List (Row α))
+    (c : Nat) (hdims : c = 2 ∨ c = 3) (dbl : Bool) :
+    ∃ r, finish gt gd rows
+      (if c = 3 then 3 else 2, if c = 3 ∧ (distinct (zColumn rows)).length ≠ 1 then 3 else 2,
+       if c = 3 ∧ (distinct (zColumn rows)).length ≠ 1 then 3 else 2,
+       decide (c = 3 ∧ (distinct (zColumn rows)).length = 1), dbl) = .ok r := by
+  have hspan : ∀ (dim : Int), mapE (fun (a : Annot α) => indexSpan dim (a.length : Int)) gd =
+      .ok (gd.map (fun a => (a.length : Int) * dim)) := fun dim => mapE_all_ok _ _ gd (fun a _ => rfl)
+  unfold finish
+  by_cases hs : c = 3 ∧ (distinct (zColumn rows)).length = 1
+  · obtain ⟨hc3, hd⟩ := hs
+    subst hc3
+    obtain ⟨z, hz, _⟩ := (distinct_length_one _).mp hd
+    by_cases hp : gt ∈ indexListTypes
+    · simp [hd, hz, hp, hspan]
+    · simp [hd, hz, hp]
+  · rcases hdims with hc | hc
+    · subst hc
+      by_cases hp : gt ∈ indexListTypes
+      · simp [hp, hspan]
+      · simp [hp]
+    · subst hc
+      have hne : (distinct (zColumn rows)).length ≠ 1 := fun h => hs ⟨rfl, h⟩
+      by_cases hp : gt ∈ indexListTypes
+      · simp [hp, hspan, hne]
+      · simp [hp, hne]
+
+/-- **every refusal of the constructor is a ValueError** -/
+theorem encode_error_value {α : Type} [DecidableEq α] (gt : String) (finite : α → Bool) (dbl : Bool) (cast : α → α)
+    (gd : GData α) (e : ErrKind) (h : encode gt finite dbl cast gd = .error e) : e = .value := by
+  unfold encode at h
+  generalize hrows : gd.flatten.map (fun r => r.map cast) = rows at h
+  cases hcheck : mapE (fun a => pointCountCheck gt (a.length : Int) (firstEqLast a)) gd with
+  | error e' =>
+    simp only [hcheck] at h
+    cases h
+    refine mapE_error_kind _ .value gd ?_ _ hcheck
+    intro a _ e hx
+    rw [pointCountCheck_countOk] at hx
+    by_cases hc : countOk gt a
+    · simp [hc] at hx
+    · simp only [hc, if_false] at hx
+      cases hx; rfl
+  | ok zs =>
+    simp only [hcheck] at h
+    cases hhead : rows.head? with
+    | none => simp only [hhead] at h; cases h; rfl
+    | some r0 =>
+      simp only [hhead] at h
+      by_cases huni : uniformWidth r0.length rows = true
+      · simp only [huni, Bool.not_true, Bool.false_eq_true, if_false] at h
+        rw [encodePlan_spec] at h
+        by_cases hcond : (r0.length = 2 ∨ r0.length = 3) ∧ (rows.all fun r => List.all r finite) = true
+        · simp only [hcond, and_self, if_true] at h
+          obtain ⟨r, hr⟩ := finish_ok gt gd rows r0.length hcond.1 dbl
+          simp only [hr] at h
+          cases h
+        · simp only [hcond, if_false] at h
+          cases h; rfl
+      · simp only [huni, Bool.not_false, if_true] at h
+        cases h; rfl
+
+
+end HdVerif.Ann
